@@ -21,7 +21,7 @@ def native_check(seed=0, n_files=4):
             alphabet = ["X", "Y", "Z", "H"]
             trb = rng.choice(alphabet, size=(N, n))
             bs = ["".join(rng.choice(alphabet, size=n)) for _ in range(int(rng.integers(1, 4)))]
-            p = lambda nm: os.path.join(tmp, "%d_%s.txt" % (t, nm))
+            p = lambda nm: os.path.join(tmp, "data_%s.txt" % nm)        # the same file names in every round: the files are rewritten
             np.savetxt(p("s"), samples, fmt="%d")
             np.savetxt(p("psi"), psi)
             np.savetxt(p("re"), re_)
